@@ -46,6 +46,24 @@ def check_route_after(ctx, impl, case, cfg_hops):
             ctx.violation("request-altered:route", case, "route %s != configured route %s (after get_module_info of another slot)" % (route, want.hex()))
 
 
+def run_route_after(ctx, model, lines, pend, focus, paths):
+    """the configured route survives other calls: module info of another slot (which builds its own route from the
+    configured one), then messages over the configured route"""
+    rng = ctx.rng
+    for path, hops in paths:
+        if not hops:
+            continue
+        for slot in (0, 1, 5):
+            a = {"service": 0x0E, "class_code": 0x70, "instance": 2, "attribute": 1, "request_data": b"\x01\x02\x03", "name": "g",
+                 "connected": False, "unconnected_send": True, "route_path": True}
+            generic = (0, (), b"\x10\x20")
+            scn, _, _ = tr.gen_base(rng, policy=(True, True, True), generic=generic)
+            ctx.count("mode/ucs-after-module-info")
+            tr.run_case(ctx, model, lines, pend, "route-after-module-info", focus, scn, path, False, {}, [b"\x88" * 8],
+                        [("open",), ("modinfo", slot), ("gm", a), ("gm", dict(a, connected=True, unconnected_send=False))],
+                        check=lambda impl, case, hops=hops: check_route_after(ctx, impl, case, hops))
+
+
 def check_delivery(ctx, impl, case, a, generic, cfg_hops):
     """the (last) mr event in the target log must be exactly what was asked for"""
     evs = re.findall(r"\(mr ([TF]) ([TF]) (\d+) \(([^()]*(?:\([^()]*\)[^()]*)*)\) \(b ?([0-9a-f]*)\) \(b ?([0-9a-f]*)\)\)", impl["log"])
@@ -136,20 +154,7 @@ def run(ctx, model):
             scn, _, _ = tr.gen_base(rng, policy=(True, True, True), generic=generic)
             tr.run_case(ctx, model, lines, pend, "length-sweep", "C14", scn, paths[1][0], False, {}, [b"\x55" * 8], [("open",), ("gm", a)],
                         check=lambda impl, case, a=a, generic=generic: check_delivery(ctx, impl, case, a, generic, paths[1][1]))
-    # the configured route survives other calls: module info of another slot (which builds its own route from the
-    # configured one), then a message over the configured route
-    for path, hops in paths:
-        if not hops:
-            continue
-        for slot in (0, 1, 5):
-            a = {"service": 0x0E, "class_code": 0x70, "instance": 2, "attribute": 1, "request_data": b"\x01\x02\x03", "name": "g",
-                 "connected": False, "unconnected_send": True, "route_path": True}
-            generic = (0, (), b"\x10\x20")
-            scn, _, _ = tr.gen_base(rng, policy=(True, True, True), generic=generic)
-            ctx.count("mode/ucs-after-module-info")
-            tr.run_case(ctx, model, lines, pend, "route-after-module-info", "C14", scn, path, False, {}, [b"\x88" * 8],
-                        [("open",), ("modinfo", slot), ("gm", a), ("gm", dict(a, connected=True, unconnected_send=False))],
-                        check=lambda impl, case, hops=hops: check_route_after(ctx, impl, case, hops))
+    run_route_after(ctx, model, lines, pend, "C14", paths)
     # Unconnected Send with an empty route (route_path False / b"" / []): the wrapper still carries the embedded length
     # and, for an odd length, the pad byte; nothing follows.  The reference target cannot unwrap it (no route size field),
     # so the oracle is the wire layout itself, besides the transcript correspondence with the Lean client.
